@@ -1,0 +1,90 @@
+//! Verification hooks (feature `crux_verif`, off by default).
+//!
+//! Thin wrappers exposing crate-private steps and read-only occupancy of the [`Command`]
+//! executor so that out-of-tree verification harnesses can drive *one step* of the real
+//! state machine from a constructed state. Nothing here changes behaviour.
+
+use std::sync::atomic::Ordering;
+
+use super::executor::{TaskId, TaskState};
+use super::{Command, CommandContext};
+
+/// The real request/stream future types (their module is private), so harness-defined futures can
+/// hold them in a field.
+pub use super::context::{ShellRequest, ShellStream};
+
+/// Outcome of one [`Command::run_task`] call, mirroring the private `TaskState`.
+#[derive(Clone, Copy, Debug, PartialEq, Eq)]
+pub enum PollOutcome {
+    Missing,
+    Suspended,
+    Completed,
+    Cancelled,
+}
+
+/// Call the real `run_task` for the task stored under `task_id`.
+pub fn run_task<Effect, Event>(cmd: &mut Command<Effect, Event>, task_id: usize) -> PollOutcome {
+    match cmd.run_task(TaskId(task_id)) {
+        TaskState::Missing => PollOutcome::Missing,
+        TaskState::Suspended => PollOutcome::Suspended,
+        TaskState::Completed => PollOutcome::Completed,
+        TaskState::Cancelled => PollOutcome::Cancelled,
+    }
+}
+
+/// Call the real `run_until_settled`.
+pub fn run_until_settled<Effect, Event>(cmd: &mut Command<Effect, Event>) {
+    cmd.run_until_settled();
+}
+
+/// Call the real `spawn_new_tasks`.
+pub fn spawn_new_tasks<Effect, Event>(cmd: &mut Command<Effect, Event>) {
+    cmd.spawn_new_tasks();
+}
+
+/// Number of tasks currently stored in the command.
+pub fn live_tasks<Effect, Event>(cmd: &Command<Effect, Event>) -> usize {
+    cmd.tasks.len()
+}
+
+/// Is there a task stored under `task_id`?
+pub fn has_task<Effect, Event>(cmd: &Command<Effect, Event>, task_id: usize) -> bool {
+    cmd.tasks.contains(task_id)
+}
+
+/// Has the task stored under `task_id` been flagged as aborted? `None` if there is no such task.
+pub fn task_aborted<Effect, Event>(cmd: &Command<Effect, Event>, task_id: usize) -> Option<bool> {
+    cmd.tasks.get(task_id).map(|t| t.aborted.load(Ordering::Acquire))
+}
+
+/// Number of task ids waiting in the ready queue.
+pub fn ready_len<Effect, Event>(cmd: &Command<Effect, Event>) -> usize {
+    cmd.ready_queue.len()
+}
+
+/// Take the oldest id off the ready queue (what `run_until_settled` would run next).
+pub fn ready_pop<Effect, Event>(cmd: &mut Command<Effect, Event>) -> Option<usize> {
+    cmd.ready_queue.try_recv().ok().map(|id| id.0)
+}
+
+/// Number of spawned-but-not-yet-adopted tasks.
+pub fn spawn_len<Effect, Event>(cmd: &Command<Effect, Event>) -> usize {
+    cmd.spawn_queue.len()
+}
+
+/// Number of effects emitted and not yet taken.
+pub fn effects_len<Effect, Event>(cmd: &Command<Effect, Event>) -> usize {
+    cmd.effects.len()
+}
+
+/// Number of events emitted and not yet taken.
+pub fn events_len<Effect, Event>(cmd: &Command<Effect, Event>) -> usize {
+    cmd.events.len()
+}
+
+/// Send a raw effect value, for harnesses whose `Effect` type is plain data.
+pub fn send_effect<Effect, Event>(ctx: &CommandContext<Effect, Event>, effect: Effect) {
+    ctx.effects
+        .send(effect)
+        .expect("Command could not send effect, effect channel disconnected");
+}
